@@ -42,6 +42,9 @@ CHECKS.update({
     "C17": dict(engine="arena-mc", ref="§3 C17", technique="explicit-state exploration in lock-step: every history through a reference and 12 alternative entry points, comparing per-step observable effects",
                 text="Every history over a 27-symbol alphabet up to depth 4 (quick) is executed through the reference entry point and through 12 alternatives (&, &&, WithoutDealloc, WithoutShrink, both nestings, dyn BumpAllocatorCoreScope, dyn BumpAllocatorCore, panicking twins, generic layout path instead of typed fast paths, BumpScope by value instead of Bump) from identical initial states on a deterministic substrate; after every step the chunk index and offset of the returned block, its layout, allocated(), count() and remaining() must agree. The known divergence of trait-object reserve is reported as KNOWN-FINDING."),
 })
+CHECKS["C19"] = dict(engine="pool-loom", ref="§3 C19", technique="loom: exhaustive (DPOR) exploration of all thread interleavings of the real BumpPool under a controlled scheduler",
+    note="loom explores sequentially consistent interleavings at the pool's mutex operations, complete for the listed thread/round counts unless a preemption bound is given; memory of the arenas is not routed through loom cells (exclusive use is established by the identity oracle); requires the cfg hook that swaps the pool's Mutex for loom's.",
+    text="The real BumpPool, built with the cfg hook so that its Mutex is loom's, is driven by 2-4 threads x 1-4 rounds of get / try_get / get_with_size / get_with_capacity -> allocate a patterned slice with the pool's lifetime -> drop guard (also with a guard held across a second get), then reset / reset_to_start / drop. In every schedule: no arena identity is held by two live guards, arenas created <= peak of simultaneously outstanding gets, every slice ever allocated still carries its pattern after all guards are gone, reset leaves one empty chunk per arena and releases the rest, reset_to_start releases nothing, drop leaves nothing outstanding in the instrumented base allocator.")
 CHECKS["C12"]["engine"] = "pure-mc + arena-mc"
 CHECKS["C12"]["text"] = "Pure part: ChunkSizeConfig compiled from /repo/src/chunk/size_config.rs is evaluated on the complete product of allocator value layouts x direction x minimum chunk size x capacity layouts (sizes up to the isize limit, aligns to 2^29) x extra granted bytes x every base-address phase: computed sizes are multiples of 16 (and of the header alignment downwards), the layout fits for every phase and min_align, growth is >= 2x-16, overflow yields None only near the address-space limit. " + CHECKS["C12"]["text"]
 
@@ -70,17 +73,18 @@ def main():
             "guard": "--cfg bump_scope_verif",
             "enable": "RUSTFLAGS='--cfg bump_scope_verif' in harness/pool-loom only (own target directory); all other engines build /repo as shipped",
             "baseline_off_cmd": "cd /repo && cargo nextest run --workspace --no-fail-fast --tool-config-file pb:/w/lib/nextest.toml --profile pb --test-threads 8 --offline",
-            "source_commits": [],
-            "add_only": True,
+            "source_commits": ["9d83ce3"],
+            "add_only": False,
         },
         "engines": [
             {"name": "arena-mc", "path": "harness/arena-mc", "serves_properties": [p for p in sorted(CHECKS) if "arena-mc" in CHECKS[p]["engine"]], "kind_free_text": "explicit-state exploration of real Bump/BumpScope over an instrumented deterministic base allocator"},
             {"name": "mutcoll-mc", "path": "harness/mutcoll-mc", "serves_properties": ["C15"], "kind_free_text": "the arena explorer built for configurations that carry the exclusive-borrow collection drivers"},
+            {"name": "pool-loom", "path": "harness/pool-loom", "serves_properties": ["C19"], "kind_free_text": "loom model checking of the real BumpPool (cfg hook: loom Mutex)"},
             {"name": "pure-mc", "path": "harness/pure-mc", "serves_properties": ["C11", "C12"], "kind_free_text": "exhaustive input-lattice enumeration of the bump and chunk-size arithmetic compiled from the repository's source files"},
         ],
         "checks": checks,
         "not_applicable": na,
-        "notes": "see DESIGN.md; known_findings.json lists fixed and open findings",
+        "notes": "see DESIGN.md; known_findings.json lists fixed and open findings. hooks.add_only is false because one existing import line of src/bump_pool.rs had to be split (std::sync::{Mutex, MutexGuard} moved behind cfg(not(bump_scope_verif))); everything else in the hook commit is additive.",
     }
     with open(os.path.join(ROOT, "MANIFEST.json"), "w") as f:
         json.dump(m, f, indent=1)
